@@ -526,3 +526,205 @@ Section Sym.
       intros Hk1 _ _. congruence.
   Qed.
 End Sym.
+
+(* ---- from the root; at the level of the two entry points ---------------------------------- *)
+Definition follow_of (slm : slmode) : bool := negb (slmode_eqb slm SlLstat).
+
+Theorem sym_bridge (h : heap) (v : view) (slm : slmode) (cs : list str) (fi fk : nat) (md : bool) :
+  v_os v = Linux -> walk_wf h -> links_clean h ->
+  node_is_dir h (v_root v) = true -> kperm h (v_root v) 1 (v_user v) = true ->
+  Forall good_comp cs -> (md = false \/ cs = []) ->
+  let K := kwalk fk h (v_user v) (v_root v) false (follow_of slm) (v_root v) cs 0 md in
+  let r := search_loop fi h v slm (v_root v) (v_root v) (pi_new Linux (abs_path cs)) 0 None in
+  K <> WErr EFUEL -> K <> WErr ELOOP -> sr_err r <> EFuel ->
+  walk_rel h (v_user v) (v_root v) (precise_of slm) r K.
+Proof.
+  intros Hos Hwf Hlc Hrd Hrp Hg Hmd K r. subst K r. destruct cs as [|c cs].
+  - destruct fk as [|fk]; [cbn [kwalk]; congruence|]. destruct fi as [|fi]; [cbn [search_loop sr_err]; congruence|].
+    intros _ _ _.
+    rewrite (search_loop_end h v Hos fi slm (v_root v) (v_root v) _ 0 None [] (Forall_nil _) (pi_new_before [])).
+    rewrite kwalk_S. cbn. split; [reflexivity|]. split; [reflexivity|]. split; [eauto|]. intros [=].
+  - destruct Hmd as [->|Hmd]; [|discriminate]. intros Hk1 Hk2 Hnf.
+    apply (sym_bridge_at h v Hos Hwf Hlc Hrd Hrp slm fk fi [] (c :: cs) (v_root v) _ 0 None _); auto.
+    + discriminate.
+    + apply pi_new_before.
+    + unfold MAXSYMLINKS. lia.
+Qed.
+
+Theorem sym_bridge_lookup (s : fsys) (sv : sview) (slm : slmode) (cs : list str) :
+  let v := sv_view sv in
+  let h := f_heap s in
+  v_os v = Linux -> walk_wf h -> links_clean h ->
+  node_is_dir h (v_root v) = true -> kperm h (v_root v) 1 (v_user v) = true ->
+  Forall good_comp cs ->
+  let K := klookup s sv false (follow_of slm) (abs_path cs) in
+  let r := search_node s v (abs_path cs) slm in
+  K <> WErr EFUEL -> K <> WErr ELOOP -> sr_err r <> EFuel ->
+  walk_rel h (v_user v) (v_root v) (precise_of slm) r K.
+Proof.
+  intros v h Hos Hwf Hlc Hrd Hrp Hg K r. subst K r.
+  rewrite (search_node_abs_path s v cs slm Hos Hg), (klookup_abs_path s sv false (follow_of slm) cs Hg).
+  apply sym_bridge; auto. destruct cs; [right; reflexivity|left; reflexivity].
+Qed.
+
+(* ---- non-vacuity and the budget witness ---------------------------------------------------- *)
+Module WalkSymExamples.
+  Definition nm (i : nat) : str := [N.of_nat (200 + i)].
+  Definition dmeta : meta := {| m_mode := N.lor MODE_DIR 493; m_uid := 0; m_gid := 0 |}.
+  Definition lmeta : meta := {| m_mode := N.lor MODE_SYMLINK 511; m_uid := 0; m_gid := 0 |}.
+  Definition fmeta : meta := {| m_mode := 420; m_uid := 0; m_gid := 0 |}.
+  Definition adminv : view :=
+    {| v_root := 0; v_cwd := [SLASH]; v_user := root_user; v_umask := 18; v_os := Linux; v_idm := true |}.
+  Definition alice : user := {| us_uid := 1000; us_gid := 1000; us_admin := false |}.
+  Definition alicev : view :=
+    {| v_root := 0; v_cwd := [SLASH]; v_user := alice; v_umask := 18; v_os := Linux; v_idm := true |}.
+
+  (* a chain of [n] links in the root: nm 0 -> nm 1 -> ... -> nm n, the last a file *)
+  Definition chain_heap (n : nat) : heap :=
+    NDir (map (fun i => (nm i, S i)) (seq 0 (S n))) dmeta
+    :: map (fun i => NSym (nm (S i)) lmeta) (seq 0 n) ++ [NFile [1%N] 1 1 fmeta].
+  Definition chain_fs (n : nat) : fsys := {| f_heap := chain_heap n; f_last_id := 1; f_vols := [] |}.
+  Definition sv_of (v : view) : sview := {| sv_view := v; sv_cwd := 0 |}.
+
+  (* 40 links: both resolve to the file; 41: the kernel refuses, the implementation resolves;
+     65: both refuse *)
+  Example budget_agree_40 :
+    sr_child (search_node (chain_fs 40) adminv (abs_path [nm 0]) SlStat) = Some 41
+    /\ klookup (chain_fs 40) (sv_of adminv) false true (abs_path [nm 0]) = WNode 0 LNorm (nm 40) 41.
+  Proof. vm_compute. split; reflexivity. Qed.
+
+  Example budget_differs :
+    (let r := search_node (chain_fs 41) adminv (abs_path [nm 0]) SlStat in
+     sr_err r = EFileExists /\ sr_child r = Some 42)
+    /\ klookup (chain_fs 41) (sv_of adminv) false true (abs_path [nm 0]) = WErr ELOOP.
+  Proof. vm_compute. split; [split|]; reflexivity. Qed.
+
+  Example budget_both_refuse :
+    sr_err (search_node (chain_fs 65) adminv (abs_path [nm 0]) SlStat) = ETooManySymlinks
+    /\ klookup (chain_fs 65) (sv_of adminv) false true (abs_path [nm 0]) = WErr ELOOP.
+  Proof. vm_compute. split; reflexivity. Qed.
+
+  (* a small tree with every kind of link:
+       /d (dir 0755)   /d/e (dir)   /d/e/f (file)     /d/up -> ".."     /d/e/top -> "../../d"
+       /abs -> "/d/e"  /rel -> "d/e/f"   /dot -> "."   /loop -> "loop"   /dang -> "missing/x"   /root -> "/"
+       /priv (dir 0700, owner 0)  /priv/g (file) *)
+  Definition s_d := [100%N]. Definition s_e := [101%N]. Definition s_f := [102%N]. Definition s_g := [103%N].
+  Definition s_up := [117%N; 112%N]. Definition s_top := [116%N]. Definition s_abs := [97%N]. Definition s_rel := [114%N].
+  Definition s_dot := [111%N]. Definition s_loop := [108%N]. Definition s_dang := [110%N]. Definition s_root := [113%N].
+  Definition s_priv := [112%N]. Definition s_missing := [109%N]. Definition s_x := [120%N].
+  Definition tree : heap :=
+    [ NDir [(s_d, 1); (s_abs, 6); (s_rel, 7); (s_dot, 8); (s_loop, 9); (s_dang, 10); (s_root, 11); (s_priv, 12)] dmeta   (* 0 / *)
+    ; NDir [(s_e, 2); (s_up, 4)] dmeta                                                     (* 1 /d *)
+    ; NDir [(s_f, 3); (s_top, 5)] dmeta                                                    (* 2 /d/e *)
+    ; NFile [7%N] 1 1 fmeta                                                                (* 3 /d/e/f *)
+    ; NSym [DOT; DOT] lmeta                                                                (* 4 /d/up *)
+    ; NSym ([DOT; DOT; SLASH; DOT; DOT; SLASH] ++ s_d) lmeta                               (* 5 /d/e/top *)
+    ; NSym (SLASH :: s_d ++ SLASH :: s_e) lmeta                                            (* 6 /abs *)
+    ; NSym (s_d ++ SLASH :: s_e ++ SLASH :: s_f) lmeta                                     (* 7 /rel *)
+    ; NSym [DOT] lmeta                                                                     (* 8 /dot *)
+    ; NSym s_loop lmeta                                                                    (* 9 /loop *)
+    ; NSym (s_missing ++ SLASH :: s_x) lmeta                                               (* 10 /dang *)
+    ; NSym [SLASH] lmeta                                                                   (* 11 /root *)
+    ; NDir [(s_g, 13)] {| m_mode := N.lor MODE_DIR 448; m_uid := 0; m_gid := 0 |}         (* 12 /priv *)
+    ; NFile [] 1 2 fmeta ].                                                                (* 13 /priv/g *)
+  Definition tree_fs : fsys := {| f_heap := tree; f_last_id := 2; f_vols := [] |}.
+
+  (* the projection the theorem relates: (errno | node) *)
+  Definition impl_obs (v : view) (slm : slmode) (cs : list str) : ekind * option nat :=
+    let r := search_node tree_fs v (abs_path cs) slm in (sr_err r, sr_child r).
+  Definition spec_obs (v : view) (follow : bool) (cs : list str) : wres :=
+    klookup tree_fs (sv_of v) false follow (abs_path cs).
+
+  Example tree_walks :
+    (* through "..", through an absolute link, a relative one with two "..", "." and "/" as targets *)
+    impl_obs adminv SlStat [s_d; s_e; s_top; s_up; s_rel] = (EFileExists, Some 3)
+    /\ spec_obs adminv true [s_d; s_e; s_top; s_up; s_rel] = WNode 2 LNorm s_f 3
+    /\ impl_obs adminv SlStat [s_abs; s_top; s_e; s_f] = (EFileExists, Some 3)
+    /\ spec_obs adminv true [s_abs; s_top; s_e; s_f] = WNode 2 LNorm s_f 3
+    /\ impl_obs adminv SlEval [s_d; s_up] = (EFileExists, Some 0)
+    /\ spec_obs adminv true [s_d; s_up] = WNode 0 LDotDot DD 0
+    /\ impl_obs adminv SlEval [s_d; s_e; s_top] = (EFileExists, Some 1)
+    /\ spec_obs adminv true [s_d; s_e; s_top] = WNode 0 LNorm s_d 1
+    /\ impl_obs adminv SlStat [s_dot; s_root; s_d] = (EFileExists, Some 1)
+    /\ spec_obs adminv true [s_dot; s_root; s_d] = WNode 0 LNorm s_d 1
+    /\ impl_obs adminv SlStat [s_root] = (EFileExists, Some 0)
+    /\ spec_obs adminv true [s_root] = WNode 0 LRoot [] 0
+    (* no-follow of the final component *)
+    /\ impl_obs adminv SlLstat [s_d; s_up] = (EFileExists, Some 4)
+    /\ spec_obs adminv false [s_d; s_up] = WNode 1 LNorm s_up 4
+    (* dangling, in final and in middle position; through a file *)
+    /\ impl_obs adminv SlStat [s_dang] = (ENoSuchDir, None)
+    /\ spec_obs adminv true [s_dang] = WErr ENOENT
+    /\ impl_obs adminv SlStat [s_rel; s_x] = (ENotADirectory, Some 3)
+    /\ spec_obs adminv true [s_rel; s_x] = WErr ENOTDIR
+    (* search permission: a plain user below /priv *)
+    /\ impl_obs alicev SlStat [s_priv; s_g] = (EPermDenied, Some 12)
+    /\ spec_obs alicev true [s_priv; s_g] = WErr EACCES
+    /\ impl_obs alicev SlStat [s_abs; s_f] = (EFileExists, Some 3)
+    /\ spec_obs alicev true [s_abs; s_f] = WNode 2 LNorm s_f 3.
+  Proof. vm_compute. repeat split; reflexivity. Qed.
+
+  (* a self-referential link: both give up (the kernel after 40, the implementation after 64 links) *)
+  Example tree_loop :
+    impl_obs adminv SlStat [s_loop] = (ETooManySymlinks, Some 9) /\ spec_obs adminv true [s_loop] = WErr ELOOP.
+  Proof. vm_compute. split; reflexivity. Qed.
+End WalkSymExamples.
+
+
+(* the hypotheses of the bridge hold of the example tree: the theorem applies to it *)
+Module WalkSymNonVacuity.
+  Import WalkSymExamples.
+
+  Lemma tree_edges d n c :
+    dedge tree d n c ->
+    In (d, c) [(0,1); (0,6); (0,7); (0,8); (0,9); (0,10); (0,11); (0,12); (1,2); (1,4); (2,3); (2,5); (12,13)].
+  Proof.
+    unfold dedge, children, get.
+    do 14 (destruct d as [|d]; [cbn; intros H; repeat (destruct H as [[= <- <-]|H]; [repeat (first [left; reflexivity | right])|]); destruct H|]).
+    destruct d; cbn; intros [].
+  Qed.
+  Lemma increasing_wf (h : heap) :
+    (forall d n c, dedge h d n c -> d < c) ->
+    (forall d1 n1 d2 n2 c, dedge h d1 n1 c -> dedge h d2 n2 c -> node_is_dir h c = true -> d1 = d2) ->
+    walk_wf h.
+  Proof.
+    intros Hinc Hs. split; [exact Hs|].
+    assert (Hr : forall a b, dreach h a b -> a <= b).
+    { intros a b Hab. induction Hab as [|d n c _ IH He]; [lia|]. apply Hinc in He. lia. }
+    intros d (x & n & Hdx & He). apply Hr in Hdx. apply Hinc in He. lia.
+  Qed.
+  Example tree_wf : walk_wf tree.
+  Proof.
+    apply increasing_wf.
+    - intros d n c H. apply tree_edges in H. cbn [In] in H.
+      repeat (destruct H as [[= <- <-]|H]; [lia|]). destruct H.
+    - intros d1 n1 d2 n2 c H1 H2 _. apply tree_edges in H1, H2. cbn [In] in H1, H2.
+      repeat (destruct H1 as [H1|H1]); try contradiction; injection H1 as <- <-;
+        repeat (destruct H2 as [H2|H2]); try contradiction; congruence.
+  Qed.
+  Example tree_links_clean : links_clean tree.
+  Proof.
+    intros i t m. unfold get.
+    do 14 (destruct i as [|i];
+           [cbn [nth_error tree]; intros E; try discriminate E; injection E as <- _;
+            match goal with |- exists x, ?t = _ => exists t end; vm_compute; reflexivity|]).
+    destruct i; discriminate.
+  Qed.
+
+  Example tree_instance :
+    walk_rel tree alice 0 true
+      (search_node tree_fs alicev (abs_path [s_abs; s_top; s_e; s_f]) SlEval)
+      (klookup tree_fs (sv_of alicev) false true (abs_path [s_abs; s_top; s_e; s_f])).
+  Proof.
+    apply (sym_bridge_lookup tree_fs (sv_of alicev) SlEval [s_abs; s_top; s_e; s_f]).
+    - reflexivity.
+    - exact tree_wf.
+    - exact tree_links_clean.
+    - reflexivity.
+    - reflexivity.
+    - repeat constructor; try discriminate; intros x [<-|[]]; discriminate.
+    - vm_compute; discriminate.
+    - vm_compute; discriminate.
+    - vm_compute; discriminate.
+  Qed.
+End WalkSymNonVacuity.
